@@ -11,10 +11,11 @@ out = subprocess.run([sys.executable, os.path.join(os.path.dirname(__file__), "t
                      capture_output=True, text=True).stdout
 reports = [l.strip() for l in out.splitlines() if l.startswith("    ")]
 fires = "fires" in out
+rl = [l for l in out.splitlines() if l.startswith("  rules: ")]
 meta = {"id": sid, "property": prop, "change": change, "needs_to_manifest": needs,
         "origin": "independent sub-agent given only the property text, a scratch worktree of /repo and the instruction to use a different mechanism than the first seed",
         "confirmed": "tools/confirm_seed.sh in a fresh scratch worktree: patch applies, cargo build --offline, cargo test --offline = 137 passed, demo.sh exits 0 on the unchanged binary and 1 on the changed one (see confirm.log)",
         "missed_by_the_checks_when_it_arrived": bool(int(missed)),
-        "caught_by_check": prop if fires else None, "reports": reports}
+        "caught_by_check": prop if fires else None, "caught_by_rules": rl[0][9:].split() if rl else [], "reports": reports}
 json.dump(meta, open(os.path.join(d, "meta.json"), "w"), indent=1)
 print(sid, "caught" if fires else "MISSED", len(reports))
